@@ -142,11 +142,6 @@ func (pxy *BaseProxy) HandleTCPWorkConnection(workConn net.Conn, m *msg.StartWor
 		err    error
 	)
 	remote = workConn
-	if pxy.limiter != nil {
-		remote = libio.WrapReadWriteCloser(limit.NewReader(workConn, pxy.limiter), limit.NewWriter(workConn, pxy.limiter), func() error {
-			return workConn.Close()
-		})
-	}
 
 	xl.Tracef("handle tcp work connection, useEncryption: %t, useCompression: %t",
 		baseCfg.Transport.UseEncryption, baseCfg.Transport.UseCompression)
@@ -161,6 +156,13 @@ func (pxy *BaseProxy) HandleTCPWorkConnection(workConn net.Conn, m *msg.StartWor
 	var compressionResourceRecycleFn func()
 	if baseCfg.Transport.UseCompression {
 		remote, compressionResourceRecycleFn = libio.WithCompressionFromPool(remote)
+	}
+	// the limiter counts payload bytes, outside encryption and compression, as the server-side limiter does
+	if pxy.limiter != nil {
+		inner := remote
+		remote = libio.WrapReadWriteCloser(limit.NewReader(inner, pxy.limiter), limit.NewWriter(inner, pxy.limiter), func() error {
+			return inner.Close()
+		})
 	}
 
 	// check if we need to send proxy protocol info
